@@ -297,16 +297,23 @@ def check(db, rep):
 
     # ---------------------------------------------------------------- r2
     r2 = rep.rule('r2', 'ROUND-TRIP: parse_model(lex_model(print_model(T))) = T for every tree of the operator/constructor family, in MATH and ASCII', 600)
-    fam = family()
+    fam = [(k, s, sentence(s)) for k, s in family()]
+    if rep.tier == 'thorough':
+        # every witness sentence of the tree grammar (one per production x operand root kind): all constructs in all operand positions
+        from engine.models.treegrammar import TreeGrammar
+        for text, toks in TreeGrammar(db).sentences():
+            fam.append(('grammar', text, toks))
     trees = {}
     kinds = {}
-    for kind, s in fam:
+    for kind, s, toks_ in fam:
         try:
-            t, info = M.ast.build(sentence(s))
+            t, info = M.ast.build(toks_)
         except OutOfFragment as e:
             r2.broken('parser model left the fragment on `%s`: %s' % (s, e))
             return
         if t is None:
+            if kind == 'grammar':
+                continue       # witnesses include sentences an action rejects (declarations that are not variables, misplaced assignments)
             r2.broken('family sentence `%s` is not accepted by the parser model (%s)' % (s, info))
             continue
         key = _actual(t)
